@@ -179,6 +179,17 @@ func propC05(run *Run, n int) {
 		return c
 	}
 	choices = append(choices, optChoice{OptPrec(0.001), precCfg, "Precision(0.001)"}, optChoice{OptPrec(0), precCfg, "Precision(0)"})
+	// SetKeys together with a Precision (the CLI accepts -setkeys with -precision; only -set / -mset are refused):
+	// members keep their identity while numbers in their other fields move by less than eps
+	keyedPrec := func() GenCfg {
+		c := DefaultCfg()
+		c.SetKeys = []string{"id"}
+		c.Keys = []string{"a", "id", "x"}
+		c.Nums = []float64{1, 1.00001, 1.0005, 1.4, 2}
+		c.ScalarBias = 3
+		return c
+	}
+	choices = append(choices, optChoice{append(OptKeys("id"), OptPrec(0.001)...), keyedPrec, "SetKeys(id)+Precision(0.001)"})
 	// C05 is not restricted to null-free documents in merge mode
 	withNull := func() GenCfg { c := DefaultCfg(); c.ScalarBias = 4; return c }
 	withNullDeep := func() GenCfg { return DeepCfg() }
@@ -196,7 +207,11 @@ func propC05(run *Run, n int) {
 		}
 		if ch.o.Has("P") && r.Chance(1, 2) {
 			b = a.Clone()
-			jitter(r, b)
+			if ch.o.Has("K") {
+				jitterNonKey(r, b, ch.o.KeysOf())
+			} else {
+				jitter(r, b)
+			}
 		}
 		a, b = withVoid(r, a, b)
 		addC05Case(run, ch.o, ch.label, a, b)
@@ -217,6 +232,26 @@ func jitter(r *Rng, v *Val) {
 	case KObj:
 		for _, e := range v.O {
 			jitter(r, e)
+		}
+	}
+}
+
+// jitterNonKey: as jitter, but the values of the set keys stay (members keep their identity)
+func jitterNonKey(r *Rng, v *Val, keys []string) {
+	switch v.K {
+	case KNum:
+		if r.Chance(1, 2) {
+			v.N += 0.00001
+		}
+	case KArr:
+		for _, e := range v.A {
+			jitterNonKey(r, e, keys)
+		}
+	case KObj:
+		for k, e := range v.O {
+			if !isIn(k, keys) {
+				jitterNonKey(r, e, keys)
+			}
 		}
 	}
 }
@@ -312,7 +347,113 @@ func propC03(run *Run, n int) {
 			}
 			addC03Case(run, t, joinHunks(sub))
 		}
+		if r.Chance(1, 3) {
+			// hand-written / hand-extended hunks: SEVERAL lines of before and after context (the reader accepts any
+			// number, doc/v2.md describes adding more), taken from the target or deliberately wrong
+			t, hw := handListHunk(r, cfg)
+			run.Count("hunk:hand-written-context")
+			addC03Case(run, t, hw)
+		}
 	}
+}
+
+// handListHunk: a target holding an array (at the root, below a key, or inside an outer array) and ONE strict
+// list hunk at index i with nb before lines and na after lines; with probability 1/2 every expectation holds,
+// otherwise one of them is broken (two context lines swapped, a line replaced, the index shifted, `[` / `]`
+// claimed where there is an element)
+func handListHunk(r *Rng, cfg GenCfg) (*Val, string) {
+	n := 2 + r.Intn(5)
+	xs := []*Val{}
+	for j := 0; j < n; j++ {
+		if r.Chance(1, 6) {
+			xs = append(xs, VArr(VNum(float64(j))))
+		} else {
+			xs = append(xs, VNum(float64(j%4)))
+		}
+	}
+	i := r.Intn(n + 1)
+	rm := 0
+	if i < n {
+		rm = r.Intn(min(3, n-i) + 1)
+	}
+	nb, na := r.Intn(4), r.Intn(4)
+	before := []*Val{}
+	for j := i - nb; j < i; j++ {
+		if j < 0 {
+			if j == -1 {
+				before = append(before, VVoid()) // the `[` marker
+			}
+			continue
+		}
+		before = append(before, xs[j].Clone())
+	}
+	remove := []*Val{}
+	for j := i; j < i+rm; j++ {
+		remove = append(remove, xs[j].Clone())
+	}
+	after := []*Val{}
+	for j := i + rm; j < i+rm+na; j++ {
+		if j >= n {
+			if j == n {
+				after = append(after, VVoid()) // the `]` marker
+			}
+			break
+		}
+		after = append(after, xs[j].Clone())
+	}
+	add := []*Val{}
+	for j := r.Intn(3); j > 0; j-- {
+		add = append(add, VNum(float64(7+j)))
+	}
+	if len(remove) == 0 && len(add) == 0 {
+		add = append(add, VStr("n"))
+	}
+	idx := i
+	if r.Chance(1, 2) {
+		switch r.Intn(5) {
+		case 0:
+			if len(before) >= 2 {
+				before[0], before[len(before)-1] = before[len(before)-1], before[0]
+			}
+		case 1:
+			if len(after) >= 2 {
+				after[0], after[len(after)-1] = after[len(after)-1], after[0]
+			}
+		case 2:
+			if len(before) > 0 {
+				before[r.Intn(len(before))] = VStr("wrong")
+			}
+		case 3:
+			if len(after) > 0 {
+				after[r.Intn(len(after))] = VStr("wrong")
+			}
+		default:
+			idx = i + 1 - 2*r.Intn(2)
+			if idx < 0 {
+				idx = 0
+			}
+		}
+	}
+	ws := func(l []*Val) string {
+		out := []string{}
+		for _, v := range l {
+			out = append(out, v.Wire())
+		}
+		return strings.Join(out, " ")
+	}
+	arr := VArr(xs...)
+	var t *Val = arr
+	path := fmt.Sprintf("I%d", idx)
+	switch r.Intn(3) {
+	case 0:
+		t = VObj("a", arr, "z", VNum(1))
+		path = "K\"61 " + path
+	case 1:
+		t = VArr(VNum(9), arr)
+		path = "I1 " + path
+	}
+	w := fmt.Sprintf("( s %s | %s | %s | %s | %s )", path, ws(before), ws(remove), ws(add), ws(after))
+	return t, joinHunks([]string{strings.Join(strings.Fields(w), " ")})
 }
 
 func addC03Case(run *Run, t *Val, dw string) {
@@ -675,6 +816,11 @@ func propC06(run *Run, n int) {
 		}
 	}
 	run.Count(fmt.Sprintf("exhaustive_pairs_len<=%d", maxLen))
+	{
+		a, b := largePair(r, false)
+		run.Count("large-arrays")
+		addLargeArrayCase(run, a, b, false)
+	}
 	for i := 0; i < n; i++ {
 		var a, b *Val
 		if r.Chance(1, 2) {
@@ -689,6 +835,20 @@ func propC06(run *Run, n int) {
 			if b.K != KArr {
 				b = cfg.Arr(r, 0)
 			}
+		}
+		if r.Chance(1, 10) {
+			// Precision(0.1): an edited element directly in front of an object whose two versions differ only in
+			// numbers by less than the precision
+			x := VObj("x", VNum(1), "t", VArr(VStr("a")))
+			y := VObj("x", VNum(1.04), "t", VArr(VStr("a")))
+			pa := []*Val{VNum(float64(r.Intn(3))), x, VNum(2)}
+			pb := []*Val{VNum(float64(3 + r.Intn(3))), y, VNum(2)}
+			if r.Chance(1, 2) {
+				pa = append([]*Val{VArr(VStr("id"), VNum(7))}, pa...)
+				pb = append([]*Val{VArr(VStr("id"), VNum(7))}, pb...)
+			}
+			addC06CaseO(run, OptPrec(0.1), "precision", VArr(pa...), VArr(pb...), 0, nil)
+			continue
 		}
 		if r.Chance(1, 6) {
 			// chained use of the API: a document read from text is diffed against the document an earlier
@@ -747,17 +907,22 @@ func propC06(run *Run, n int) {
 }
 
 func addC06Case(run *Run, wrap string, a, b *Val, pre int, w func(*Val) *Val) {
+	addC06CaseO(run, OptNone, wrap, a, b, pre, w)
+}
+
+// with a Precision option the reading is still the list reading (Diff ignores the precision, KF-C05-precision)
+func addC06CaseO(run *Run, o OptSet, wrap string, a, b *Val, pre int, w func(*Val) *Val) {
 	da, db := a, b
 	if w != nil {
 		da, db = w(a.Clone()), w(b.Clone())
 	}
 	aw, bw := da.Wire(), db.Wire()
-	dw := implDiff(OptNone, aw, bw)
+	dw := implDiff(o, aw, bw)
 	c := Case{Recipe: Recipe{"c06", []string{wrap, a.Wire(), b.Wire()}}, Desc: map[string]string{"wrapper": wrap, "a": a.Human(), "b": b.Human(), "impl_diff": dw}}
 	c.Nontrivial = a.Wire() != b.Wire()
 	c.Sig = wrap + "|" + aw + "|" + bw
 	c.Probes = append(c.Probes,
-		Probe{Kind: "corr", Rel: "Diff = diffM (incl. golcs Values = lcsValues)", Line: fmt.Sprintf("diff o= %s %s", aw, bw), Want: dw},
+		Probe{Kind: "corr", Rel: "Diff = diffM (incl. golcs Values = lcsValues)", Line: fmt.Sprintf("diff %s %s %s", o.Wire(), aw, bw), Want: dw},
 		Probe{Kind: "oracle", Rel: "C06 removes/adds = len - LCS (spec), same-kind containers recursed into, one line of context equal to the neighbours", Line: fmt.Sprintf("c06 %d %s %s %s", pre, a.Wire(), b.Wire(), dw)},
 	)
 	run.Count("wrapper:" + wrap)
@@ -771,6 +936,11 @@ func propC07(run *Run, n int) {
 	run.rule = "random (a, b) x {list, SET, MULTISET, SetKeys, MERGE}; per hunk facts and every leave-one-out sub-diff applied by the implementation; non-trivial = at least two hunks (leave-one-out is meaningful); distinct = distinct (options, a, b)"
 	r := NewRng(run.Seed)
 	choices := coreOptChoices()[:10]
+	for k := 0; k < 2; k++ {
+		a, b := largePair(r, k == 1)
+		run.Count("large-arrays")
+		addLargeArrayCase(run, a, b, k == 1)
+	}
 	for i := 0; i < n; i++ {
 		ch := choices[r.Intn(len(choices))]
 		cfg := ch.cfg()
@@ -782,6 +952,114 @@ func propC07(run *Run, n int) {
 		}
 		addC07Case(run, ch.o, ch.label, a, b)
 	}
+}
+
+// largePair: two arrays of more than 1024 elements (|a|*|b| beyond a million cells: where an implementation would
+// be tempted to cap the LCS table) that differ at two places with unchanged elements between them
+func largePair(r *Rng, nested bool) (*Val, *Val) {
+	n := 1030 + r.Intn(80)
+	xs := make([]*Val, n)
+	for j := range xs {
+		xs[j] = VNum(float64(j % 7))
+	}
+	a := VArr(xs...)
+	b := a.Clone()
+	i := 100 + r.Intn(400)
+	j := i + 2 + r.Intn(3)
+	if nested {
+		a.A[i], b.A[i] = VArr(VNum(1)), VArr(VNum(3))
+		a.A[j], b.A[j] = VArr(VNum(2)), VArr(VNum(4))
+	} else {
+		b.A[i], b.A[j] = VStr("x"), VStr("y")
+	}
+	return a, b
+}
+
+// addLargeArrayCase judges the diff of two large arrays directly (the driver's reference LCS is the textbook
+// recursion and the model's table is quadratic in lists: both are for small inputs): the hunks turn a into b, top
+// level hunks remove / add exactly len - LCS elements (LCS by dynamic programming here), no hunk removes and adds
+// the same values, and when the changed positions hold containers no top-level hunk touches anything
+func addLargeArrayCase(run *Run, a, b *Val, nested bool) {
+	aw, bw := a.Wire(), b.Wire()
+	dw := implDiff(OptNone, aw, bw)
+	c := Case{Recipe: Recipe{"largearr", []string{aw, bw, boolWire(nested)}}, Desc: map[string]string{"a_len": fmt.Sprint(len(a.A)), "b_len": fmt.Sprint(len(b.A)), "impl_diff": dw}}
+	c.Nontrivial = true
+	c.Sig = "large|" + fmt.Sprint(len(a.A)) + "|" + dw
+	verdict := "ok"
+	out := implPatch(aw, dw)
+	if !strings.HasPrefix(out, "ok ") || implEquals(OptNone, out[3:], bw) != "T" {
+		verdict = "fail the diff of the two large arrays does not turn a into b"
+	}
+	// LCS length of the element wires
+	x, y := []string{}, []string{}
+	for _, e := range a.A {
+		x = append(x, e.Wire())
+	}
+	for _, e := range b.A {
+		y = append(y, e.Wire())
+	}
+	prev := make([]int, len(y)+1)
+	for i := 1; i <= len(x); i++ {
+		cur := make([]int, len(y)+1)
+		for j := 1; j <= len(y); j++ {
+			if x[i-1] == y[j-1] {
+				cur[j] = prev[j-1] + 1
+			} else if prev[j] >= cur[j-1] {
+				cur[j] = prev[j]
+			} else {
+				cur[j] = cur[j-1]
+			}
+		}
+		prev = cur
+	}
+	lcs := prev[len(y)]
+	rm, ad := 0, 0
+	for _, h := range splitHunks(dw) {
+		f := strings.Split(h, " | ")
+		if len(f) != 5 {
+			continue
+		}
+		path := strings.Fields(f[0])
+		if len(path) != 3 { // "(", "s", "I<k>": a hunk of the top-level array
+			continue
+		}
+		rmv, addv := topValues(f[2]), topValues(f[3])
+		rm += len(rmv)
+		ad += len(addv)
+		if strings.Join(rmv, " ") == strings.Join(addv, " ") && len(rmv) > 0 {
+			verdict = "fail a hunk removes and adds the same values: " + h
+		}
+	}
+	if verdict == "ok" {
+		if nested && (rm != 0 || ad != 0) {
+			verdict = fmt.Sprintf("fail same-position containers differ, yet top-level hunks remove %d and add %d elements", rm, ad)
+		} else if !nested && (rm != len(x)-lcs || ad != len(y)-lcs) {
+			verdict = fmt.Sprintf("fail not minimal: removes %d adds %d, LCS length %d, |a|=%d |b|=%d", rm, ad, lcs, len(x), len(y))
+		}
+	}
+	c.Probes = append(c.Probes, Probe{Kind: "direct", Rel: "large arrays (> 1024 elements): the diff applies, is minimal (len - LCS) and mentions no unchanged element", Want: verdict})
+	run.Add(c)
+}
+
+// topValues splits a wire value list into its top-level values
+func topValues(s string) []string {
+	out := []string{}
+	depth := 0
+	cur := []string{}
+	for _, t := range strings.Fields(s) {
+		cur = append(cur, t)
+		if strings.HasPrefix(t, "[") || t == "{" {
+			depth++
+		}
+		if t == "]" || t == "}" {
+			depth--
+		}
+		if depth == 0 {
+			out = append(out, strings.Join(cur, " "))
+			cur = []string{}
+		}
+	}
+	return out
 }
 
 func addC07Case(run *Run, o OptSet, label string, a, b *Val) {
@@ -812,6 +1090,7 @@ func init() {
 	recipes["c05"] = func(run *Run, a []string) { addC05Case(run, mustOpts(a[0]), "corpus", mustVal(a[1]), mustVal(a[2])) }
 	recipes["c03"] = func(run *Run, a []string) { addC03Case(run, mustVal(a[0]), a[1]) }
 	recipes["c08"] = func(run *Run, a []string) { addC08Case(run, a[0], mustVal(a[1]), a[2]) }
+	recipes["largearr"] = func(run *Run, a []string) { addLargeArrayCase(run, mustVal(a[0]), mustVal(a[1]), a[2] == "T") }
 	recipes["c07"] = func(run *Run, a []string) { addC07Case(run, mustOpts(a[0]), "corpus", mustVal(a[1]), mustVal(a[2])) }
 	recipes["c06"] = func(run *Run, a []string) {
 		switch a[0] {
@@ -819,8 +1098,10 @@ func init() {
 			addC06Case(run, a[0], mustVal(a[1]), mustVal(a[2]), 1, func(v *Val) *Val { return VObj("k", v, "z", VNum(1)) })
 		case "in-array":
 			addC06Case(run, a[0], mustVal(a[1]), mustVal(a[2]), 1, func(v *Val) *Val { return VArr(v) })
+		case "precision":
+			addC06CaseO(run, OptPrec(0.1), a[0], mustVal(a[1]), mustVal(a[2]), 0, nil)
 		default:
-			addC06Case(run, "top", mustVal(a[1]), mustVal(a[2]), 0, nil)
+			addC06Case(run, a[0], mustVal(a[1]), mustVal(a[2]), 0, nil)
 		}
 	}
 	props["C03"] = propC03
